@@ -120,6 +120,14 @@ class NotifySpace(statespace.Space):
     ops = [o for o in ops if o[1] not in ('imul',) and o[0] != 'noparents']
     # inserting the absence marker itself (pg.Insertion(MISSING_VALUE)) is a misuse, not an ordinary mutation
     ops = [o for o in ops if not (o[1] == 'rebind' and any(v == ('ins', 'MISSING') for _, v in o[4]))]
+    ops = [o for o in ops if not (o[1] in ('append', 'insert', 'extend', 'iadd', 'setslice') and 'MISSING' in repr(o[4:]))]
+
+    def past_end(o):
+      if o[1] != 'rebind':
+        return False
+      node = st.resolve(root, o[3])
+      return isinstance(node, pg.List) and any(isinstance(k, int) and k >= len(node) and v == 'MISSING' for k, v in o[4])
+    ops = [o for o in ops if not past_end(o)]
     # batched deep rebinds from the root: two paths under one container / under different ones
     leaves = []
     for keys, node, _, _ in st.walk(root):
